@@ -90,7 +90,9 @@ def check_calc(mod, tier, seed, extra_modules=()):
         try:
             always = mod.runtime_checks() or []
         except Exception as e:
+            # the observations could not be evaluated: what the code does no longer fits the harness, the property is not shown to hold
             rep.notes.append(f'runtime_checks crashed: {type(e).__name__}: {e}')
+            broken.append(dict(kind='harness-evaluation-error', detail=f'runtime_checks: {type(e).__name__}: {e}', where=traceback.format_exc()[-1200:]))
     always = list(always) + [dict(hostile_environment=f) for f in disturb.FAILS[:3]]
     rep.coverage['runtime_observations_failed'] = len(always)
     for f in always[:3]:
